@@ -592,7 +592,7 @@ type c08Plan struct {
 	stage    int // 0 planned, 1 request in progress, 2 response in progress, 3 done, 4 dead
 	expire   bool
 	resBuilt bool
-	ck       *rawCsum // running checksum of an appended call as the destination sees it
+	ck       *rawCsum  // running checksum of an appended call as the destination sees it
 	early    *rawFrame // timer scenarios: the timeout error frame, if it arrived while the call req event was still being collected
 }
 
